@@ -110,7 +110,7 @@ theorem usedNonempty_iff (a : AbstractModel) (h : usedNonempty a = true) :
 
 /-- the state after a history, in `update_headers`' layout, is written and re-read as `view a'` -/
 theorem edit_then_parse_of_rep (a' : AbstractModel) (hsm : Small a') (m m' : MDL) (ces : List Edit)
-    (hne : ces ≠ []) (hd : RangesDisjoint m.modelData.lods m.fileHeader.lodCount.toNat)
+    (hne : ces ≠ []) (hd : RangesDisjoint m.modelData.lods m.lods.length)
     (hE : ces.foldlM Mdl.applyEdit m = .ok m') (hrep : Rep a' m')
     (h' : WF (relayout a') = true) (hcan' : Canonical a' = true) (hne' : usedNonempty a' = true)
     (v : View) (hv : view a' = some v) (hun : UnusedEmpty a'.lodCount.toNat m'.fileHeader) :
@@ -168,7 +168,7 @@ theorem starts_initial (a : AbstractModel) (h : WF a = true) (hcan : Canonical a
   have W := wf_facts a h
   have hrep : Rep a (parsedOf a v) := rep_initial a h v hv
   intro i hi d hd
-  have hi' : i < a.lodCount.toNat := hi
+  have hi' : i < a.lodCount.toNat := by rw [← parsedOf_lods_length a h v hv]; exact hi
   have hi3 : i < a.lods.length := by have := W.lc3; have := W.lods3; omega
   obtain ⟨l, hl⟩ : ∃ l, a.lods[i]? = some l := ⟨a.lods[i], List.getElem?_eq_getElem hi3⟩
   have hrow : (parsedOf a v).modelData.lods[i]? = some (lodRowOf a i l) := lods_row a i l hl
@@ -217,18 +217,20 @@ theorem edit_then_parse (a : AbstractModel) (h : WF a = true) (hcan : Canonical 
       headerFlags m1.fileHeader buf.length m1.lods = HeaderFlags.allOk := by
   have hrep0 : Rep a (parsedOf a v0) := rep_initial a h v0 hv0
   obtain ⟨hrep, hsm⟩ := rep_history2 es a a' (parsedOf a v0) mE ces
-    (small_of_wf a h) hrep0 (starts_initial a h hcan v0 hv0) (rep_rangesDisjoint h hrep0) hes ha' hces hE
+    (small_of_wf a h) hrep0 (starts_initial a h hcan v0 hv0) (rep_rangesDisjoint' h hrep0) hes ha' hces hE
   have hlc : a'.lodCount = a.lodCount := by
-    have e1 : mE.fileHeader.lodCount = a'.lodCount := (congrArg FileHeader.lodCount hrep.fh :)
-    have e2 := (history_frame ces (parsedOf a v0) mE hE).lodCount
-    rw [← e1, e2]; rfl
+    apply UInt8.toNat_inj.mp
+    have e1 := rep_parts_length h' hrep
+    have e2 := (history_frame ces (parsedOf a v0) mE hE).partsLen
+    have e3 : (parsedOf a v0).lods.length = a.lodCount.toNat := parsedOf_lods_length a h v0 hv0
+    omega
   have hun : UnusedEmpty a'.lodCount.toNat mE.fileHeader := by
     rw [hlc]
     exact unusedEmpty_history ces (parsedOf a v0) mE hE _
       (by show v0.lods.length ≤ _; rw [parsedOf_lods_length a h v0 hv0]; exact Nat.le_refl _)
       (unusedEmpty_initial a h hcan)
   exact edit_then_parse_of_rep a' hsm (parsedOf a v0) mE ces (cedits_ne_nil es a ces hne hces)
-    (rep_rangesDisjoint h hrep0) hE hrep (wf_relayout a' h' hlen') hcan' hne' v hv hun
+    (rep_rangesDisjoint' h hrep0) hE hrep (wf_relayout a' h' hlen') hcan' hne' v hv hun
 
 /-- under `editsFit` (every intermediate state is small enough for `update_headers`, every shape-mesh
 count can be incremented) the edit calls on the parsed model return -/
@@ -239,6 +241,6 @@ theorem edits_return_initial (a : AbstractModel) (h : WF a = true) (hcan : Canon
     ∃ mE, ces.foldlM Mdl.applyEdit (parsedOf a v0) = .ok mE := by
   have hrep0 : Rep a (parsedOf a v0) := rep_initial a h v0 hv0
   exact edits_return es a a' (parsedOf a v0) ces (small_of_wf a h) (wf_facts a h).lods3 hrep0
-    (starts_initial a h hcan v0 hv0) (rep_rangesDisjoint h hrep0) hes hfit ha' hces
+    (starts_initial a h hcan v0 hv0) (rep_rangesDisjoint' h hrep0) hes hfit ha' hces
 
 end Physis.Mdl
